@@ -271,6 +271,9 @@ impl Interpreter {
                 let a = state.stack.pop_bytes()?;
                 let b = state.stack.pop_bytes()?;
 
+                if a.len() != b.len() {
+                    return Err(InterpreterError::InvalidStackOperation("Bitwise opcodes need operands of equal length"));
+                }
                 let and_array = b.iter().zip(a.iter()).map(|(&x1, &x2)| x1 & x2).collect();
 
                 state.stack.push_bytes(and_array);
@@ -279,6 +282,9 @@ impl Interpreter {
                 let a = state.stack.pop_bytes()?;
                 let b = state.stack.pop_bytes()?;
 
+                if a.len() != b.len() {
+                    return Err(InterpreterError::InvalidStackOperation("Bitwise opcodes need operands of equal length"));
+                }
                 let or_array = b.iter().zip(a.iter()).map(|(&x1, &x2)| x1 | x2).collect();
 
                 state.stack.push_bytes(or_array);
@@ -287,6 +293,9 @@ impl Interpreter {
                 let a = state.stack.pop_bytes()?;
                 let b = state.stack.pop_bytes()?;
 
+                if a.len() != b.len() {
+                    return Err(InterpreterError::InvalidStackOperation("Bitwise opcodes need operands of equal length"));
+                }
                 let xor_array = b.iter().zip(a.iter()).map(|(&x1, &x2)| x1 ^ x2).collect();
 
                 state.stack.push_bytes(xor_array);
